@@ -3,10 +3,9 @@
 EXTENDS Trace_ArgParse
 Show(f) == [err |-> f.err, retargs |-> f.retargs, chain |-> f.chain, val |-> f.val, pos |-> f.pos, events |-> f.events,
             isSet |-> f.isSet, grey |-> f.grey, role |-> f.role, out |-> f.out, steps |-> f.steps]
-DInit == l = 1 /\ bad = [p \in Props |-> {}] /\ stat = [k \in StatKeys |-> 0] /\ j = <<>>
+DInit == l = 1
 DNext == /\ l <= Len(TraceRecs) /\ l' = l + 1
          /\ PrintT(<<"SPEC", l, ToJson(Show(Final(TraceRecs[l], TraceRecs[l].argv)))>>)
-         /\ j' = Judge(TraceRecs[l]) /\ PrintT(<<"JUDGE", l, j'>>)
-         /\ UNCHANGED <<bad, stat>>
-DSpec == DInit /\ [][DNext]_<<l, bad, stat, j>>
+         /\ PrintT(<<"JUDGE", l, Judge(TraceRecs[l])>>)
+DSpec == DInit /\ [][DNext]_l
 =============================================================================
